@@ -184,7 +184,7 @@ func (d *Deriver) derive(t reflect.Type, ts eff, mergeGlobal bool, depth int) (*
 		ts = ts.merge(d.getByType(t))
 	}
 	s := &Schema{GoType: t}
-	if t.Implements(serializableType) {
+	if isCustomType(t) {
 		// API.encode / API.decode delegate to the type's own Encode / Decode before looking at its kind
 		ct := t
 		if t.Kind() == reflect.Ptr {
